@@ -1141,7 +1141,11 @@ def common_meta(ctx):
     ]
     ctx.assume = [
         "shm allocation never fails and no record is lost (C03 covers LOST); no filters/triggers besides argument "
-        "specs (C05); one thread per data file in the model (threads are exercised end to end only)",
+        "specs, -N functions and the finish / signal triggers (C05); one thread per data file in the model (threads are "
+        "exercised end to end only)",
+        "after the message pipe was closed, a thread that moves on to a buffer the recorder never hears of is abstracted "
+        "to a `dark` state: its later stores are not modelled (the tie checks on the real code that they do not reach "
+        "the data file)",
         "a record fits into an empty buffer (the code does not re-check after switching buffers)",
         "stores become visible to the recorder in program order (x86-TSO; the recorder reads after the tracee died)",
         "the kernel delivers POLLHUP / SIGCHLD and /proc/<tid>/stat eventually shows every dead task (oracle `dead`)",
